@@ -197,6 +197,16 @@ class Engine(ExprMixin, CallMixin, BuiltinMixin, ApplyMixin, StmtMixin, _Base):
             g = self.eval_clause(cl, post_st, spec_fr)
             self.emit("post", f"post.{cl.name}", list(post_st.guards) + list(post_st.facts), g, fr, fi.lineno,
                       ast.unparse(cl.expr)[:160], cl.props)
+        # constructors: every attribute written is written at `self` only (callers rely on this frame)
+        if c.opts.get("modifies_self") and "self" in entry.env:
+            for attr in c.opts.get("modifies_self"):
+                line = fi.lineno
+                cur = self.heap_get(post_st, attr)
+                oldh = self.heap_get(entry, attr)
+                x = self.bv("fx")
+                goal = z3.ForAll([x], z3.Implies(x != self.box(entry.env["self"]), z3.Select(cur, x) == z3.Select(oldh, x)))
+                self.emit("frame", f"self-frame.{attr}", list(post_st.guards) + list(post_st.facts), goal, fr, line,
+                          f".{attr} changes at `self` only", None)
         # frame: every heap attribute written must be in `modifies` unless the written object was allocated here
         mods = set(c.modifies)
         for attr, obj, line in fr.writes:
